@@ -104,7 +104,8 @@ Check_ENC(r, raw) ==
             <<"v1_exact_base", ~r.v2 => Len(r.out) = SizeBase(def)>>,
             <<"decodes", r.dec_ok>>,
             <<"round_trip", r.dec_ok => r.dec = Canon(def, r.vals, r.v2)>>,
-            <<"buffer_untouched", ~r.src_mod /\ ~r.tail_mod>> >>)
+            <<"buffer_untouched", ~r.src_mod /\ ~r.tail_mod>>,
+            <<"same_payload_decodes_the_same_after_caller_edit", ~r.again_differs>> >>)
 
 \* C04 - message.ReadWriter.Read of an arbitrary payload
 Check_DEC(r, raw) ==
@@ -114,5 +115,6 @@ Check_DEC(r, raw) ==
                <<"ok_iff_spec", r.ok = d.ok>>,
                <<"values", (r.ok /\ d.ok) => r.vals = d.vals>>,
                <<"payload_untouched", ~r.src_mod>>,
-               <<"tail_untouched", ~r.tail_mod>> >>)
+               <<"tail_untouched", ~r.tail_mod>>,
+               <<"same_payload_decodes_the_same_after_caller_edit", ~r.again_differs>> >>)
 =============================================================================
